@@ -82,6 +82,13 @@ func VerifC18Stop() []VerifC18Event {
 	return ev
 }
 
+// VerifC18Len returns the number of events recorded so far.
+func VerifC18Len() int {
+	verifC18.mu.Lock()
+	defer verifC18.mu.Unlock()
+	return len(verifC18.events)
+}
+
 // VerifFunctionNumbers returns the numbering of functions used in the log so far.
 func VerifFunctionNumbers() map[*Function]int {
 	verifC18.mu.Lock()
